@@ -71,18 +71,29 @@ def hx(b):
 
 # --------------------------------------------------------------------------- driver
 class Driver:
-    """The compiled Lean model behind a pipe; requests are batched."""
+    """The compiled Lean model behind a pipe.  A reader thread drains replies so that large
+    batches cannot dead-lock on full pipe buffers."""
 
-    def __init__(self, path=DRIVER):
+    def __init__(self, path=None):
+        import threading, queue
+        path = path or os.environ.get('VERIF_DRIVER') or DRIVER
         if not os.path.exists(path):
             raise RuntimeError('driver not built: %s' % path)
         self.p = subprocess.Popen([path], stdin=subprocess.PIPE, stdout=subprocess.PIPE, bufsize=1 << 20)
         self.n = 0
+        self.q = queue.Queue()
 
-    def ask_many(self, reqs):
+        def reader():
+            for line in self.p.stdout:
+                self.q.put(line)
+            self.q.put(None)
+        self.t = threading.Thread(target=reader, daemon=True)
+        self.t.start()
+
+    def ask_many(self, reqs, timeout=600):
         """Send a list of request dicts; return the list of replies (same order)."""
         out = []
-        B = 256
+        B = 512
         for i in range(0, len(reqs), B):
             chunk = reqs[i:i + B]
             lines = []
@@ -91,12 +102,15 @@ class Driver:
                 r = dict(r)
                 r['id'] = self.n
                 lines.append(json.dumps(r, separators=(',', ':')))
-            self.p.stdin.write(('\n'.join(lines) + '\n').encode())
-            self.p.stdin.flush()
+            try:
+                self.p.stdin.write(('\n'.join(lines) + '\n').encode())
+                self.p.stdin.flush()
+            except BrokenPipeError:
+                raise RuntimeError('driver died (stack overflow or crash) while receiving a batch starting at %r' % (str(chunk[0])[:300],))
             for r in chunk:
-                line = self.p.stdout.readline()
-                if not line:
-                    raise RuntimeError('driver died (stack overflow or crash) on request %r' % (r,))
+                line = self.q.get(timeout=timeout)
+                if line is None:
+                    raise RuntimeError('driver died (stack overflow or crash) on request %r' % (str(r)[:500],))
                 out.append(json.loads(line))
         return out
 
